@@ -8,7 +8,7 @@ for d in seeded/*/; do
   if [ $# -gt 0 ]; then ok=0; for p in "$@"; do case $name in $p*) ok=1;; esac; done; [ $ok = 1 ] || continue; fi
   if ! git -C /repo apply --check $PWD/$d/patch.diff 2>/dev/null; then echo "$name: patch does not apply" | tee -a $out; continue; fi
   git -C /repo apply $PWD/$d/patch.diff
-  ./check.sh $id > /verif/target/seeded_$name.log 2>&1; e=$?
+  flock /verif/target/lock.$id ./check.sh $id > /verif/target/seeded_$name.log 2>&1; e=$?
   git -C /repo checkout -- .
   echo "$name: check $id exit=$e violations=$(grep -c '^VIOLATION' /verif/target/seeded_$name.log)" | tee -a $out
 done
